@@ -6,6 +6,7 @@ import (
 	"sync"
 
 	"github.com/virus-evolution/gofasta/pkg/fastaio"
+	"github.com/virus-evolution/gofasta/pkg/verifhook"
 
 	biogosam "github.com/biogo/hts/sam"
 )
@@ -132,6 +133,7 @@ func blockToFastaRecord(ch_in chan samRecords, ch_out chan fastaio.FastaRecord, 
 		if err != nil {
 			ch_err <- err
 		}
+		verifhook.Jitter("sam.blockToFastaRecord", group.idx)
 		ch_out <- getFastaRecord(rawseq, id, group.idx, trim, pad, trimstart, trimend)
 	}
 	return
